@@ -165,6 +165,21 @@ PROPS = {
         real_vs_stub=L_REAL,
         assumptions=SIM_ASSUME,
     ),
+    "C04": dict(
+        pkg="cmd/restic", test="TestVerifC04", level="exploration", quick_s=60, thorough_s=900,
+        text="a monitor inside the simulated store inspects every file at the instant it is saved (also files deleted again later) during generated "
+             "histories of backups, forget, prune with repacking, tag, rewrite, key add/passwd and repair index, with interrupted operations and all "
+             "saver/uploader schedules: the 16-byte nonce of every unpacked file, every blob and header of every pack and every key's data must "
+             "never repeat within the repository, and none of the 24-character high-entropy markers planted in file contents and file names may "
+             "occur in any stored byte string (key files' plaintext metadata excepted)",
+        note="nonces come from a seeded stream substituted for crypto/rand, so a repeat can only come from reuse in restic's code; markers detect "
+             "verbatim plaintext only (also inside compressible data, since high-entropy markers survive compression verbatim only if stored raw)",
+        design_ref="3 / C04",
+        rule="one run = configuration x history of 2-8 operations x fault per operation x seeded schedule; distinct = distinct event-log hash among "
+             "runs with a real scheduling choice or fired fault",
+        real_vs_stub=L_REAL,
+        assumptions=SIM_ASSUME + ["crypto/rand is replaced by a seeded stream; the quality of the real random source is not examined"],
+    ),
     "C15": dict(
         pkg="cmd/restic", test="TestVerifC15", level="exploration", quick_s=60, thorough_s=900,
         text="generated histories of 2-8 operations over backup, forget, prune, forget --prune, tag, rewrite --exclude, key add/passwd and repair "
